@@ -253,7 +253,254 @@ def classify_intersect(case):
     return labs
 
 
+# =============================================================================================
+# bincount
+# =============================================================================================
+@st.composite
+def bincount_cases(draw):
+    confined = draw(st.sampled_from([False, False, False, True]))
+    thorough = htmsets.tier() == "thorough"
+    dmax = (12 if confined else 10 if thorough else 8)
+    depth = draw(st.sampled_from(list(range(1, dmax + 1))))
+    amax = min(180.0, htmsets.max_radius(depth, htmsets.cap()))
+    hi = math.log10(amax)
+    kind = draw(st.integers(0, 9))
+    tmax = draw(htmsets.pow10(-3.5, min(hi, 1.0)) if kind <= 5 else htmsets.pow10(-3.5, hi))
+    tmax = min(tmax, amax)
+    tmin = max(1e-4, tmax * 10.0 ** (-draw(st.floats(0.05, 3.0))))
+    if tmin >= tmax:
+        tmin = tmax / 1.5
+    nbin = draw(st.sampled_from([1, 2, 3, 5, 10, 17, 30]))
+    smode = draw(st.sampled_from(["none", "none", "scalar", "array"]))
+
+    k1 = draw(st.sampled_from([1, 2, 4, 6]))
+    if confined:
+        # everything inside one depth-2 triangle: a cap around the centre of N3's middle child
+        base = [45.0, 35.264389682754654]
+        csize = 3.0
+        pts1 = [htmsets.neighbour(base, draw(st.floats(0.0, 360.0)), csize * math.sqrt(draw(sky.unit)))
+                for _ in range(k1)]
+    else:
+        first = draw(htmsets.any_point())
+        csize = draw(htmsets.pow10(-3.0, 1.5))
+        pts1 = [first]
+        for _ in range(k1 - 1):
+            if draw(st.booleans()):
+                pts1.append(htmsets.neighbour(first, draw(st.floats(0.0, 360.0)), csize * math.sqrt(draw(sky.unit))))
+            else:
+                pts1.append(draw(htmsets.any_point()))
+    bulk1 = None
+    tri = max(1.0, htmsets.tri_count(tmax, depth))
+    budget = 1e6 if not thorough else 5e6
+    if draw(st.sampled_from([False, False, True])):
+        bulk1 = draw(htmsets.bulk(150))
+        if confined:
+            bulk1.update(kind="cap", centre=[45.0, 35.264389682754654], cap=3.0)
+        bulk1["n"] = int(max(1, min(bulk1["n"], budget // tri)))
+    n1 = len(pts1) + (bulk1["n"] if bulk1 else 0)
+    scale = None
+    if smode == "scalar":
+        scale = draw(htmsets.pow10(-2.0, 3.0))
+    elif smode == "array":
+        s0 = draw(htmsets.pow10(-2.0, 3.0))
+        fac = draw(st.lists(st.floats(1.0, 3.0), min_size=1, max_size=4))
+        scale = [s0 * fac[i % len(fac)] for i in range(n1)]
+    smin = 1.0 if scale is None else (scale if smode == "scalar" else min(scale))
+    rmin = tmin if scale is None else math.radians(tmin) * smin
+    rmax = tmax if scale is None else math.radians(tmax) * smin
+    q = (rmax / rmin) ** (1.0 / nbin)
+
+    def angle_of(r, i):
+        """separation in degrees that point i sees at scaled separation r"""
+        if scale is None:
+            return r
+        sc = scale if smode == "scalar" else scale[i]
+        return math.degrees(r / sc)
+
+    k2 = draw(st.sampled_from([1, 2, 4, 8, 16]))
+    pts2 = []
+    while len(pts2) < k2:
+        i = draw(st.integers(0, len(pts1) - 1))
+        fam = draw(st.sampled_from(["in", "in", "in", "edge", "edge", "below1", "below", "above", "dup", "far"]))
+        b = draw(st.floats(0.0, 360.0))
+        if fam == "far":
+            pts2.append(draw(htmsets.any_point()) if not confined else
+                        htmsets.neighbour([45.0, 35.264389682754654], b, 3.0 * draw(sky.unit)))
+            continue
+        if fam == "dup":
+            pts2.append(list(pts1[i]))
+            continue
+        if fam == "in":
+            r = rmin * (rmax / rmin) ** draw(sky.unit)
+        elif fam == "edge":
+            kk = draw(st.integers(0, nbin))
+            r = rmin * q ** kk * (1.0 + draw(st.sampled_from([-1.0, 1.0])) * draw(st.sampled_from([3e-9, 1e-7, 1e-4])))
+        elif fam == "below1":
+            r = rmin * q ** (-draw(sky.unit)) * (1.0 - 3e-9)
+        elif fam == "below":
+            r = rmin * 10.0 ** (-draw(st.floats(0.0, 3.0))) * (1.0 - 3e-9)
+        else:
+            r = rmax * (1.0 + 3e-9 + draw(sky.unit))
+        ang = min(angle_of(r, i), 180.0)
+        if confined:
+            ang = min(ang, 1.0)
+        pts2.append(htmsets.neighbour(pts1[i], b, ang))
+    bulk2 = None
+    if draw(st.sampled_from([False, True])):
+        if bulk1 is not None and draw(st.booleans()):
+            bulk2 = dict(bulk1)
+            bulk2["seed"] = draw(st.integers(0, 2 ** 32 - 1))
+            bulk2["n"] = draw(st.sampled_from([5, 20, 60, 150]))
+        else:
+            bulk2 = draw(htmsets.bulk(150))
+            if confined:
+                bulk2.update(kind="cap", centre=[45.0, 35.264389682754654], cap=3.0)
+            elif bulk2["kind"] == "cap" and draw(st.booleans()):
+                bulk2["centre"] = list(pts1[0])
+                bulk2["cap"] = max(1e-4, min(30.0, 1.5 * tmax))
+    return {"depth": depth, "rmin": rmin, "rmax": rmax, "nbin": nbin, "scale": scale,
+            "set1": {"pts": pts1, "bulk": bulk1}, "set2": {"pts": pts2, "bulk": bulk2},
+            "pre": draw(st.sampled_from(["none", "ids", "ids+rev", "all", "all-lists"])),
+            "container": draw(st.sampled_from(htmsets.CONTAINERS)), "confined": confined,
+            "getbins": draw(st.sampled_from([True, True, False]))}
+
+
+class BinTruth(object):
+    def __init__(self, case):
+        kind = case["container"]
+        lon1, lat1 = htmsets.all_points(case["set1"])
+        lon2, lat2 = htmsets.all_points(case["set2"])
+        self.ra1_c, self.ra1 = htmsets.as_container(lon1, kind)
+        self.dec1_c, self.dec1 = htmsets.as_container(lat1, kind)
+        self.ra2_c, self.ra2 = htmsets.as_container(lon2, kind)
+        self.dec2_c, self.dec2 = htmsets.as_container(lat2, kind)
+        self.n1, self.n2 = self.ra1.size, self.ra2.size
+        LD = sphere.LD
+        self.rmin, self.rmax, self.nbin = float(case["rmin"]), float(case["rmax"]), int(case["nbin"])
+        sc = case["scale"]
+        sepdeg = sphere.sep(self.ra1[:, None], self.dec1[:, None], self.ra2[None, :], self.dec2[None, :])
+        if sc is None:
+            self.scale_c = None
+            s = sepdeg
+        else:
+            if isinstance(sc, list):
+                arr = np.array(sc, dtype="f8")
+                self.scale_c = arr.tolist() if kind == "list" else arr
+                s = sepdeg * sphere.D2R * arr.astype(LD)[:, None]
+            else:
+                self.scale_c = float(sc)
+                s = sepdeg * sphere.D2R * LD(float(sc))
+        self.s = s
+        # exact (longdouble) edges rmin * (rmax/rmin)**(k/nbin)
+        k = np.arange(self.nbin + 1).astype(LD)
+        lr0, lr1 = np.log10(LD(self.rmin)), np.log10(LD(self.rmax))
+        self.edges = LD(10) ** (lr0 + (lr1 - lr0) * k / LD(self.nbin))
+        pos = np.asarray(s > 0)
+        u = np.full(s.shape, -np.inf, dtype=LD)
+        u[pos] = (np.log10(s[pos]) - lr0) / ((lr1 - lr0) / LD(self.nbin))
+        b = np.floor(u)
+        self.bin = np.where(pos & (b >= 0) & (b < self.nbin), b, -1).astype(int)
+        # free: within 1e-9 relative of any edge (the two nearest are enough)
+        near = np.zeros(s.shape, dtype=bool)
+        for e in self.edges:
+            near |= np.asarray(np.abs(s - e) <= LD(1e-9) * e)
+        self.free = near
+        self.lo = np.zeros(self.nbin, dtype=int)       # required counts
+        self.hi = np.zeros(self.nbin, dtype=int)       # required + free
+        firm = (self.bin >= 0) & ~near
+        np.add.at(self.lo, self.bin[firm], 1)
+        self.hi += self.lo
+        # a free pair may land in either bin adjacent to the edge it is near (or be dropped)
+        fi, fj = np.nonzero(near)
+        for a, c in zip(fi, fj):
+            for kk, e in enumerate(self.edges):
+                if abs(s[a, c] - e) <= LD(1e-9) * e:
+                    if kk - 1 >= 0:
+                        self.hi[kk - 1] += 1
+                    if kk < self.nbin:
+                        self.hi[kk] += 1
+
+
+def check_bincount(case, ctx):
+    import esutil
+    t = BinTruth(case)
+    h = esutil.htm.HTM(int(case["depth"]))
+    kw = {}
+    if t.scale_c is not None:
+        kw["scale"] = t.scale_c
+    if not case["getbins"]:
+        kw["getbins"] = False
+    res = must(h.bincount, t.rmin, t.rmax, t.nbin, t.ra1_c, t.dec1_c, t.ra2_c, t.dec2_c, **kw)
+    if case["getbins"]:
+        require(isinstance(res, tuple) and len(res) == 3, "bincount(getbins=True) must return (lower,upper,counts)")
+        lower, upper, counts = res
+        for nm, e, ref in (("lower", lower, t.edges[:-1]), ("upper", upper, t.edges[1:])):
+            require(isinstance(e, np.ndarray) and e.shape == (t.nbin,), "bincount %s edges have shape %r", nm,
+                    getattr(e, "shape", None))
+            ulp = np.spacing(np.asarray(ref, dtype="f8"))
+            err = np.abs(e.astype(sphere.LD) - ref) / ulp
+            j = int(np.argmax(err))
+            require(float(err[j]) <= 4.0 + 2.0 * abs(math.log(t.rmax)) + 2.0 * abs(math.log(t.rmin)),
+                    "bincount %s edge %d is %.17g, rmin*(rmax/rmin)**(i/nbin) = %.17g (%.1f ulp)", nm, j, e[j],
+                    float(ref[j]), float(err[j]))
+    else:
+        counts = res
+    require(isinstance(counts, np.ndarray) and counts.shape == (t.nbin,) and counts.dtype == np.dtype("i8"),
+            "bincount counts: %r", (getattr(counts, "dtype", None), getattr(counts, "shape", None)))
+    bad = np.nonzero((counts < t.lo) | (counts > t.hi))[0]
+    if bad.size:
+        j = int(bad[0])
+        require(False, "bincount bin %d [%.12g, %.12g): counted %d pairs, brute force finds %d (+%d within 1e-9 of "
+                "an edge); all bins: got %r expected %r", j, float(t.edges[j]), float(t.edges[j + 1]), counts[j],
+                t.lo[j], t.hi[j] - t.lo[j], counts.tolist(), t.lo.tolist())
+    # precomputed ids / reverse indices, produced as documented
+    pre = case["pre"]
+    if pre != "none":
+        htmid2 = must(h.lookup_id, t.ra2_c, t.dec2_c)
+        minid, maxid = htmid2.min(), htmid2.max()
+        kw2 = dict(kw)
+        kw2["htmid2"] = htmid2.tolist() if pre == "all-lists" else htmid2
+        if pre in ("ids+rev", "all", "all-lists"):
+            hist2, rev2 = must(esutil.stat.histogram, htmid2 - minid, rev=True)
+            kw2["htmrev2"] = rev2
+        if pre in ("all", "all-lists"):
+            kw2["minid"], kw2["maxid"] = (int(minid), int(maxid)) if pre == "all-lists" else (minid, maxid)
+        res2 = must(h.bincount, t.rmin, t.rmax, t.nbin, t.ra1_c, t.dec1_c, t.ra2_c, t.dec2_c, **kw2)
+        counts2 = res2[2] if case["getbins"] else res2
+        require(np.array_equal(counts2, counts), "bincount with precomputed %s gives %r, without %r", pre,
+                np.asarray(counts2).tolist(), counts.tolist())
+    ctx.count("pairs-counted", int(counts.sum()))
+    ctx.count("free-pairs", int(t.free.sum()))
+
+
+def classify_bincount(case):
+    t = BinTruth(case)
+    sc = case["scale"]
+    labs = ["depth:%s" % (case["depth"] if case["depth"] < 4 else "4-8" if case["depth"] <= 8 else "9-12"),
+            "scale:" + ("none" if sc is None else "array" if isinstance(sc, list) else "scalar"),
+            "pre:" + case["pre"], "nbin:%s" % (case["nbin"] if case["nbin"] < 4 else "5+"),
+            "container:" + case["container"]]
+    nonempty = int((t.lo > 0).sum())
+    labs.append("nonempty-bins:%s" % (nonempty if nonempty < 2 else "2+"))
+    if nonempty >= 2:
+        labs.append("nt:>=2-nonempty-bins")
+    s = t.s
+    below1 = np.asarray((s > 0) & (s < t.edges[0] * (1 - 1e-9)) & (s >= t.edges[0] ** 2 / t.edges[1]))
+    if below1.any():
+        labs.append("pair-within-one-bin-below-rmin")
+    if np.asarray(s >= t.edges[-1] * (1 + 1e-9)).any():
+        labs.append("pair-above-rmax")
+    if t.free.any():
+        labs.append("pair-on-edge")
+    if case["confined"]:
+        labs.append("confined")
+    if t.n1 > 20 or t.n2 > 20:
+        labs.append("bulk")
+    return labs
+
+
 SUBCHECKS = [
     Subcheck("ids", ids_cases, check_ids, classify_ids, quick=1200, thorough=60000),
     Subcheck("intersect", circle_cases, check_intersect, classify_intersect, quick=1500, thorough=60000),
+    Subcheck("bincount", bincount_cases, check_bincount, classify_bincount, quick=1500, thorough=80000),
 ]
